@@ -267,7 +267,10 @@ class State:
             raise NameError(f"invalid name {var_attr_name} (should be 'domain.entity.attr')")
         if not cls.exist(f"{parts[0]}.{parts[1]}"):
             raise NameError(f"state {parts[0]}.{parts[1]} doesn't exist")
-        cls.set(f"{parts[0]}.{parts[1]}", **{parts[2]: value})
+        # not passed as a keyword: an attribute may be named like a parameter of State.set (value, new_attributes, ...)
+        attributes = cls.hass.states.get(f"{parts[0]}.{parts[1]}").attributes.copy()
+        attributes[parts[2]] = value
+        cls.set(f"{parts[0]}.{parts[1]}", new_attributes=attributes)
 
     @classmethod
     async def register_persist(cls, var_name):
